@@ -26,18 +26,18 @@ pub enum Which {
 }
 
 /// A hop address: distinctive octets so that no literal is a substring of another or of a number.
-fn addr_of(hop: usize, branch: usize) -> IpAddr {
+pub fn addr_of(hop: usize, branch: usize) -> IpAddr {
     IpAddr::V4(Ipv4Addr::new(10, 131 + (hop as u8 % 100), 171 + branch as u8, 93 + (hop as u8 * 3) % 150))
 }
 
-struct Model {
+pub struct Model {
     /// per trace: current path (hops -> branch addresses)
-    path_len: Vec<usize>,
-    round: Vec<usize>,
-    first_ttl: u8,
+    pub path_len: Vec<usize>,
+    pub round: Vec<usize>,
+    pub first_ttl: u8,
 }
 
-fn gen_round(r: &mut Prng, m: &mut Model, trace: usize, strategy: MultipathStrategy) -> (Vec<ProbeStatus>, u8) {
+pub fn gen_round(r: &mut Prng, m: &mut Model, trace: usize, strategy: MultipathStrategy) -> (Vec<ProbeStatus>, u8) {
     let k = m.round[trace];
     m.round[trace] += 1;
     // paths grow and shrink
@@ -453,15 +453,25 @@ pub fn session(seed: u64, i: usize, tier: Tier, which: Which, progress: &crate::
     o
 }
 
-pub fn run(tier: Tier, seed: u64, only: Option<usize>, which: Which) -> i32 {
+pub fn run(tier: Tier, seed: u64, only_arg: Option<String>, which: Which) -> i32 {
+    // `--only N` = mirrored-driver session N, `--only loop:N` = real-loop session N
+    let only_loop: Option<usize> = only_arg.as_deref().and_then(|s| s.strip_prefix("loop:")).and_then(|s| s.parse().ok());
+    let only: Option<usize> = if only_loop.is_some() { None } else { only_arg.as_deref().and_then(|s| s.parse().ok()) };
     let id = if which == Which::Crash { "C17" } else { "C18" };
     let mut rep = Report::new(id, "exploration", tier, seed);
-    rep.rule = "session = real TuiApp + render on a ratatui TestBackend, driven through the same cycle as run_app (snapshot -> clamp -> flow counts -> draw -> one key routed as run_app routes it in help / settings / normal mode) for 200..500 cycles; between cycles the trace changes: 1..3 synthetic rounds per cycle applied to the (1, 2 or 4) tracers through a hook (paths of 1..30 hops that grow and shrink, several responders per hop, Paris/Dublin flows, awaited / failed probes, silent rounds, extensions), tracer.clear(), a tracer error, one real round over the simulator (gives the tracer a source address), terminal resizes from 1x1 to 300x100; setup drawn per session: address / AS / GeoIP / extension modes, AS lookups, 6 column sets, max-addrs, max-flows, max-samples, privacy ttl; every address has unique hostname / AS / GeoIP strings seeded into the DNS cache and a generated MaxMind database; distinct by (setup, number of views drawn, session)".into();
+    rep.rule = "session = real TuiApp + render on a ratatui TestBackend, driven through the same cycle as run_app (snapshot -> clamp -> flow counts -> draw -> one key routed as run_app routes it in help / settings / normal mode) for 200..500 cycles; between cycles the trace changes: 1..3 synthetic rounds per cycle applied to the (1, 2 or 4) tracers through a hook (paths of 1..30 hops that grow and shrink, several responders per hop, Paris/Dublin flows, awaited / failed probes, silent rounds, extensions), tracer.clear(), a tracer error, one real round over the simulator (gives the tracer a source address), terminal resizes from 1x1 to 300x100; setup drawn per session: address / AS / GeoIP / extension modes, AS lookups, 6 column sets, max-addrs, max-flows, max-samples, privacy ttl; every address has unique hostname / AS / GeoIP strings seeded into the DNS cache and a generated MaxMind database; stage 2 = the same kind of session through the real frontend::run_app loop in child processes: the keys are typed as terminal byte sequences into a pseudo terminal that is the process's stdin, the traces change and the terminal is resized from a second thread, every frame flushed to the recording backend is scanned (C18: for everything belonging to addresses that only answer at ttl <= the privacy ttl, which stays fixed in these sessions), the session ends by typing the quit key; distinct by (setup, number of views drawn, session)".into();
     rep.assumptions = vec![
-        "key routing is a transcription of run_app's if/else chain (harness/src/tui.rs): a change inside run_app itself is not observed; every TuiApp method and the whole renderer are the real code".into(),
+        "stage 1 (mirrored driver): key routing is a transcription of run_app's if/else chain (harness/src/tui.rs), which allows the selection invariants to be read between the steps; stage 2 runs the real run_app loop (real key decoding by crossterm from a pseudo terminal, real routing, real per-cycle snapshot/clamp) on a recording backend, where only panics, frames and termination are observable".into(),
         "C18: a secret of a hidden responder may be on screen if the same address also answers at a visible hop or is a target the user typed; strings are searched per screen row, whole and as 6..8 character prefixes (clipped cells)".into(),
     ];
-    rep.required_clauses = if which == Which::Crash { vec!["draw_completes", "selection_refers_to_existing_entries"] } else { vec!["draw_completes", "hidden_hop_data_absent", "source_address_hidden", "privacy_keys_step_by_one"] };
+    rep.required_clauses = if which == Which::Crash {
+        vec!["draw_completes", "selection_refers_to_existing_entries", "real_loop_session_completes", "real_loop_quit_key_ends_the_loop"]
+    } else {
+        vec!["draw_completes", "hidden_hop_data_absent", "source_address_hidden", "privacy_keys_step_by_one", "real_loop_hidden_hop_data_absent"]
+    };
+    if only_arg.is_some() {
+        rep.required_clauses.clear();
+    }
     let n = tier.pick(300, 8_000);
     let hang = move |item: usize, ctx: &str| {
         // a draw (or key) that has not returned for 20s (normally milliseconds): a frozen front end
@@ -478,9 +488,22 @@ pub fn run(tier: Tier, seed: u64, only: Option<usize>, which: Which) -> i32 {
         }
         o
     };
-    match only {
-        Some(i) => rep.run_parallel_watchdog(1, 20, move |_, p| session(seed, i, tier, which, p), hang),
-        None => rep.run_parallel_watchdog(n, 20, move |i, p| session(seed, i, tier, which, p), hang),
+    match (only, only_loop) {
+        (Some(i), _) => rep.run_parallel_watchdog(1, 20, move |_, p| session(seed, i, tier, which, p), hang),
+        (None, Some(_)) => {}
+        (None, None) => rep.run_parallel_watchdog(n, 20, move |i, p| session(seed, i, tier, which, p), hang),
+    }
+    // ---- stage 2: the real run_app event loop, keys typed into a pseudo terminal (child processes)
+    if only.is_none() {
+        let n_loop = tier.pick(64, 1_600);
+        for o in crate::props::c17_loop::run_children(seed, tier, which, n_loop, only_loop) {
+            rep.merge(o);
+        }
+        let sessions = rep.counters.get("real_loop_sessions").copied().unwrap_or(0);
+        let stalled = rep.counters.get("real_loop_sessions_stalled").copied().unwrap_or(0);
+        if only_loop.is_none() && (sessions < n_loop as u64 / 2 || stalled * 4 > sessions) {
+            rep.harness_errors.push(format!("real-loop stage: only {sessions} of {n_loop} sessions ran, {stalled} stalled"));
+        }
     }
     for v in rep.violations.iter().take(if only.is_some() { 5 } else { 0 }) {
         println!("{}: {}", v.signature(), v.detail);
